@@ -12,6 +12,7 @@
      legacy : the lookups test `probe == -1` for "no entries" (true: the code before fix C03-1)
               or `localIndices_.size() == 0` (false: the code after fix C03-1). *)
 From Coq Require Import List ZArith NArith Bool.
+From DuneV Require Import C03_Params.
 Import ListNotations.
 Local Open Scope Z_scope.
 
@@ -46,7 +47,8 @@ Inductive c03_out :=
 Record c03_state := C03State { c03_resize : bool; c03_local : list c03_pair; c03_fresh : list c03_pair;
                                c03_seq : Z; c03_deleted : bool }.
 
-Definition c03_init : c03_state := C03State false [] [] 0 false.
+(* ParallelIndexSet(): state_(GROUND), seqNo_(0), deletedEntries_()  -- the literal is re-read from the source *)
+Definition c03_init : c03_state := C03State false [] [] c03_param_seq_init false.
 
 (* IndexSetSortFunctor / the merge condition:
    i1.global()<i2.global() || (i1.global()==i2.global() && LocalIndexComparator::compare(i1.local(),i2.local()))
@@ -91,7 +93,11 @@ Definition c03_merge (local added : list c03_pair) (deleted : bool) : option (li
   else if negb (length added =? 0)%nat || deleted then c03_merge_loop (length local + length added) local added
   else Some local.
 
-(* binary search: int low=0, high=size-1, probe=-1; while(low<high) {probe=(high+low)/2; ...} *)
+(* binary search: int low=0, high=size-1, probe=-1; while(low<high) {probe=(high+low)/2; ...}
+   The source has five copies in two spellings of the comparison:
+     at() const, operator[]() const :      if(global <= localIndices_[probe].global())   -> c03_bs_loop   / c03_search
+     at(), exists() const, operator[]() :  if(localIndices_[probe].global() >= global)   -> c03_bs_loop_nc / c03_search_nc
+   The start values of low and probe are re-read from the source (C03_Params.v, generated). *)
 Definition c03_int_max : Z := 2147483647.
 Inductive c03_bs := C03BS (low probe : Z) | C03BSOverflow | C03BSOutOfFuel | C03BSBadIndex.
 
@@ -113,7 +119,27 @@ Fixpoint c03_bs_loop (fuel : nat) (l : list c03_pair) (g : Z) (low high probe : 
 Definition c03_search (l : list c03_pair) (g : Z) : c03_bs :=
   let size := Z.of_nat (length l) in
   if size - 1 >? c03_int_max then C03BSOverflow
-  else c03_bs_loop (S (length l)) l g 0 (size - 1) (-1).
+  else c03_bs_loop (S (length l)) l g c03_param_low_init (size - 1) c03_param_probe_init.
+
+Fixpoint c03_bs_loop_nc (fuel : nat) (l : list c03_pair) (g : Z) (low high probe : Z) : c03_bs :=
+  if low <? high then
+    match fuel with
+    | O => C03BSOutOfFuel
+    | S f =>
+        if high + low >? c03_int_max then C03BSOverflow else
+        let probe := Z.quot (high + low) 2 in
+        match nth_error l (Z.to_nat probe) with
+        | None => C03BSBadIndex
+        | Some p => if c03_g p >=? g then c03_bs_loop_nc f l g low probe probe
+                    else c03_bs_loop_nc f l g (probe + 1) high probe
+        end
+    end
+  else C03BS low probe.
+
+Definition c03_search_nc (l : list c03_pair) (g : Z) : c03_bs :=
+  let size := Z.of_nat (length l) in
+  if size - 1 >? c03_int_max then C03BSOverflow
+  else c03_bs_loop_nc (S (length l)) l g c03_param_low_init (size - 1) c03_param_probe_init.
 
 (* the "No entries!" test *)
 Definition c03_no_entries (legacy : bool) (l : list c03_pair) (probe : Z) : bool :=
@@ -123,7 +149,7 @@ Definition c03_bs_err (r : c03_bs) : c03_out :=
   match r with C03BSOverflow => C03Overflow | C03BSOutOfFuel => C03OutOfFuel | _ => C03Precond end.
 
 Definition c03_exists (legacy : bool) (l : list c03_pair) (g : Z) : c03_out :=
-  match c03_search l g with
+  match c03_search_nc l g with
   | C03BS low probe =>
       if c03_no_entries legacy l probe then C03Bool false
       else match nth_error l (Z.to_nat low) with
@@ -134,7 +160,7 @@ Definition c03_exists (legacy : bool) (l : list c03_pair) (g : Z) : c03_out :=
   end.
 
 Definition c03_at (legacy : bool) (l : list c03_pair) (g : Z) : c03_out :=
-  match c03_search l g with
+  match c03_search_nc l g with
   | C03BS low probe =>
       if c03_no_entries legacy l probe then C03RangeError
       else match nth_error l (Z.to_nat low) with
@@ -146,6 +172,23 @@ Definition c03_at (legacy : bool) (l : list c03_pair) (g : Z) : c03_out :=
 
 (* operator[]: no test at all *)
 Definition c03_get (l : list c03_pair) (g : Z) : c03_out :=
+  match c03_search_nc l g with
+  | C03BS low _ => match nth_error l (Z.to_nat low) with None => C03Precond | Some p => C03PairOut p end
+  | r => c03_bs_err r
+  end.
+
+(* the const overloads: at() const, operator[]() const *)
+Definition c03_at_c (legacy : bool) (l : list c03_pair) (g : Z) : c03_out :=
+  match c03_search l g with
+  | C03BS low probe =>
+      if c03_no_entries legacy l probe then C03RangeError
+      else match nth_error l (Z.to_nat low) with
+           | None => C03Precond
+           | Some p => if negb (c03_g p =? g) then C03RangeError else C03PairOut p
+           end
+  | r => c03_bs_err r
+  end.
+Definition c03_get_c (l : list c03_pair) (g : Z) : c03_out :=
   match c03_search l g with
   | C03BS low _ => match nth_error l (Z.to_nat low) with None => C03Precond | Some p => C03PairOut p end
   | r => c03_bs_err r
@@ -199,7 +242,7 @@ Fixpoint c03_upd_nth (k : nat) (v : N) (l : list c03_pair) : list c03_pair :=
   | p :: r, S k' => p :: c03_upd_nth k' v r
   end.
 Definition c03_setlocal (legacy : bool) (l : list c03_pair) (g : Z) (v : N) : list c03_pair * c03_out :=
-  match c03_search l g with
+  match c03_search_nc l g with
   | C03BS low probe =>
       if c03_no_entries legacy l probe then (l, C03RangeError)
       else match nth_error l (Z.to_nat low) with
@@ -255,6 +298,12 @@ Definition c03_cmp_out (l : list c03_pair) (i j : nat) (g : Z) : c03_out :=
   | _, _ => C03Precond
   end.
 
+(* GlobalLookupIndexSet(set)::size(): size_ = max over local(), then ++size_ (1 for the empty set) *)
+Definition c03_lookup_size (l : list c03_pair) : c03_out := C03Num (Z.of_N (N.succ (c03_max_loc l))).
+
+(* add(global): IndexPair(global) -> local_() = ParallelLocalIndex(): localIndex_(0), attribute_(), public_(false), VALID *)
+Definition c03_add_default (g : Z) : c03_op := C03Add g 0%N 0%N false.
+
 Definition c03_step (chk legacy : bool) (st : c03_state) (op : c03_op) : c03_state * c03_out :=
   let '(C03State rz local fresh seq dl) := st in
   match op with
@@ -278,7 +327,7 @@ Definition c03_step (chk legacy : bool) (st : c03_state) (op : c03_op) : c03_sta
            end
   | C03Renumber =>
       if chk && rz then (st, C03InvalidState)
-      else (C03State rz (c03_renumber_from 0%N local) fresh seq dl, C03Ok)
+      else (C03State rz (c03_renumber_from c03_param_renumber_start local) fresh seq dl, C03Ok)
   | C03Exists g => (st, c03_exists legacy local g)
   | C03At g => (st, c03_at legacy local g)
   | C03Get g => (st, c03_get local g)
